@@ -14,7 +14,7 @@ MUTANTS = [
  ("outputs-not-checked", ("/\\ \\A j \\in 1..Len(d.outs) : IsVirtual(d.outs[j]) \\/ v.i[j] = Info(F, PathOf(d.outs[j]))", "/\\ TRUE"), "MC_BS1.tla", "MC_BS1_quick.cfg", {"OutputsClean", "SeenCurrent"}),
  ("failure-feeds", ('ELSE IF v.k = "FailedInput" THEN "failed"', 'ELSE IF FALSE THEN "failed"'), "MC_BS1.tla", "MC_BS1_c10.cfg", {"FailureStops"}),
  ("sig-ignored", ("ELSE IF r.sig # SigOf(k) THEN RunRule(k, S, \"SignatureChanged\", NoKey)", "ELSE IF FALSE THEN RunRule(k, S, \"SignatureChanged\", NoKey)"), "MC_BS1.tla", "MC_BS1_c09.cfg", {"OutputsClean", "SeenCurrent"}),
- ("missing-command-silent", ("IF c \\notin Cmds THEN Finish(S, k, VInvalid, TRUE, <<>>)", "IF c \\notin Cmds THEN Finish(S, k, VInvalid, FALSE, <<>>)"), "MC_BS1.tla", "MC_BS1_thorough.cfg", set()),
+ ("missing-command-silent", ("IF c \\notin Cmds THEN Finish(S, k, VInvalid, TRUE, <<>>)", "IF c \\notin Cmds THEN Finish(S, k, VInvalid, FALSE, <<>>)"), "MC_BS1.tla", "MC_BS1_quick.cfg", set()),
  ("tree-children-ignored", ("[q \\in kids |-> <<F[q].s, IF F[q].t = \"dir\" THEN TreeObs(F, q, filt) ELSE <<>> >>] >>", "[q \\in kids |-> <<0, IF F[q].t = \"dir\" THEN TreeObs(F, q, filt) ELSE <<>> >>] >>"), "MC_BS2.tla", "MC_BS2_quick.cfg", set()),
  ("stale-removes-expected", ("/\\ p \\notin SeqToSet(d.expected)\n         /\\ (d.roots", "/\\ TRUE\n         /\\ (d.roots"), "MC_BS3.tla", "MC_BS3_quick.cfg", {"StaleOnlyObsolete"}),
  ("stale-ignores-roots", ("/\\ (d.roots = <<>> \\/ (desc.paths[p].abs /\\ \\E i \\in 1..Len(d.roots) : Under(p, d.roots[i]))))", "/\\ TRUE)"), "MC_BS3.tla", "MC_BS3_quick.cfg", {"StaleOnlyObsolete"}),
